@@ -13,7 +13,7 @@ RULE = (
     'Planted and noisy datasets (water levels from -1350 to +2400 mm) x grid steps {1, .5, .1, .2, .3, .25, 2.5, 5, '
     '.7} mm x curve kind {rise, recession}: the curve is assembled without a reference (origin must be the highest '
     'level), then re-assembled with -r k*step for the levels k of the curve (quick: <= 24 per combination, thorough: '
-    'all up to 400; level 0 always when the curve spans it), passed as the float k*step and, through the CLI, as the decimal text a user would type '
+    'all up to 250; level 0 always when the curve spans it), passed as the float k*step and, through the CLI, as the decimal text a user would type '
     '("%.10g"); the walker recomputes the master curve from the base tables and requires 0 at level k (1e-6 s / 1e-9 '
     'mm).  Off-grid references (k + {.5, .25, .01, .001}) * step must be refused with nothing written.  Non-trivial: '
     '(step, k) with k*step not exactly representable; distinct (kind, step, k) counted.'
@@ -22,7 +22,7 @@ ASSUMPTIONS = [
     'only levels present in the assembled curve are used as references',
     'harness convenience: the curve tables are emptied between two references on the same classified dataset',
 ]
-SIZES = {'quick': dict(datasets=2, steps=3, levels=24, cli=6), 'thorough': dict(datasets=6, steps=9, levels=400, cli=40)}
+SIZES = {'quick': dict(datasets=2, steps=3, levels=24, cli=6), 'thorough': dict(datasets=2, steps=9, levels=250, cli=36)}
 REQUIRED = {
     tier: {
         'on-grid-references-accepted-and-origin-checked': 300,
